@@ -10,12 +10,19 @@ type writeSizer struct {
 	size uint64
 }
 
-func (w *writeSizer) Write(p []byte) (int, error) {
+func (w *writeSizer) Write(p []byte) (n int, err error) {
 	w.size += uint64(len(p))
 	if w.crc != nil {
-		return w.crc.Write(p)
+		n, err = w.crc.Write(p)
+	} else {
+		n, err = w.w.Write(p)
 	}
-	return w.w.Write(p)
+	// callers only look at the error: a destination that accepts fewer bytes without
+	// reporting one must not pass for a successful write (as in io.Copy and bufio)
+	if err == nil && n < len(p) {
+		err = io.ErrShortWrite
+	}
+	return n, err
 }
 
 func newWriteSizer(w io.Writer, calculateCRC bool) *writeSizer {
